@@ -50,7 +50,7 @@ void IndexClassification::prepare(bool order_spins)
     if (order_spins) {
         for (unsigned int z=0; z<MaxSpinSize; ++z) {
             for (Lattice::SiteMap::const_iterator it1 = Sites.begin(); it1!=Sites.end();++it1) {
-                if (z>=(*(it1->second)).SpinSize) break;
+                if (z>=(*(it1->second)).SpinSize) continue;
                 for (unsigned int i=0; i<(*(it1->second)).OrbitalSize; ++i) {
                         IndicesToInfo[currentIndex] = new IndexInfo( it1->first, i, z);
                         currentIndex++;
